@@ -69,6 +69,13 @@ def join_spec(kinds):
                     convert(sx, kind, w, o)
                 except C.SpecRaise:
                     return False
+                # ... and the detour through T must not be MORE permissive than the direct assignment to the final target:
+                # a BitVector alternative joined into Signed[8] would then be sign-extended into a Signed[16] target,
+                # which `s16 <<= bv8` rejects.  Widening inside one kind is transparent, a change of kind is not.
+                if isinstance(o, SObj) and issubclass(o.kind, BitVector) and issubclass(kind, BitVector):
+                    vk = lambda k: Signed if issubclass(k, Signed) else Unsigned if issubclass(k, Unsigned) else BitVector
+                    if vk(o.kind) is not vk(kind):
+                        return False
             return True
 
         return C.Pred(holds, "None, or a type every alternative converts to (and no Null / Full among them)")
